@@ -9,7 +9,7 @@ EXPLANATION = ('Shape of the restart routine ChannelManager::from_channel_manage
 	'manager-behind-monitor comparisons (otherwise force-closed with OutdatedChannelManager and a regenerated close update numbered after the '
 	'monitor); a monitor behind the manager is refused (DangerousValue); in-flight updates newer than the monitor are all replayed and '
 	'"all complete" really means all; monitor updates reach the Watch only after background events ran; the startup reconstruction calls exist. '
-	'Together with the write-side rules of C12. Decides these necessary conditions; sufficiency at every crash point is not decided.')
+	'Together with the write-side rules of C12. Also: event completion actions are queued only on the Ok arm of the handler result (sync and async event loops); every holder-commitment update variant carries the claimed outbound HTLCs and the monitor records them whichever variant arrives. Decides these necessary conditions; sufficiency at every crash point is not decided.')
 ASSUMPTIONS = ['ChannelMonitors handed to the reader are the latest persisted ones (Watch contract)', 'write-side coverage is decided under C12']
 
 def _cmp(F, pos, neg):
